@@ -38,7 +38,8 @@ def run(tier):
                "and run on 6 instances; (enc) every storage kind x all 22 semantic tags x well- and ill-typed contents (and non-finite "
                "doubles, ext byte strings), alone and in 4 container shapes, through JSON (4 float formats x 5 precisions, bignum and byte "
                "string formats, NaN/Inf substitutes), CBOR (plain, packed+typed arrays), MessagePack, UBJSON, BSON, CSV, TOON encoders and "
-               "as<T>() conversions. Oracle: terminates; only json_exception-family exceptions or error codes; no sanitizer report; no "
+               "as<T>() conversions; and every encoder into a std::ostream with 3 value shapes whose content crosses the sink's 16384-byte "
+               "buffer end at every one of 81 alignments. Oracle: terminates; only json_exception-family exceptions or error codes; no sanitizer report; no "
                "leak. non-trivial = cases in which every entry point behaved.")
     ck.assumptions = ["each case runs in a forked child; a crash, fatal sanitizer report or time-out is attributed to the case whose index the child had published",
                       "leak = allocation count not restored after the call, confirmed by an immediate second run of the same call (one-time static initialisation is not a leak)",
